@@ -210,6 +210,14 @@ def document(input_file: str, settings: Settings):
             logger.debug(f"Subdirs: {subdirs}")
             logger.debug(f"Root: {root}")
 
+            # os.walk() lists symbolic links to directories among the subdirs but only
+            # descends into them when following links; a directory that is never visited
+            # gets no index.rst and must not be listed in the toctree either
+            if not settings.input.follow_symlinks:
+                for subdir in copy.copy(subdirs):
+                    if os.path.islink(os.path.join(root, subdir)):
+                        subdirs.remove(subdir)
+
             # Check our subdirs and see if any match the exclusion filters
             # If they do, remove from the list and os.walk() will ignore them
             for subdir in copy.copy(subdirs):
